@@ -54,7 +54,36 @@ def spanColon : Str → Nat → Str × Nat
   | 58 :: xs, n => spanColon xs (n + 1)
   | s, n => (s, n)
 
-/-- `scan(source, callback)` as an event list (callback never stops it). `pos` may exceed the length by the overrun. -/
+/-- block or property end at `sstart`: flush the pending property (name, then value — an empty value at the delimiter when
+    nothing was consumed) or the consumed token -/
+def flushPending (st : ScanState) (sstart : Int) (acc : List Ev) : List Ev × ScanState :=
+  if st.propertyStart != -1 then
+    let a := ⟨.propertyName, st.propertyStart, st.propertyEnd, st.propertyDelimiter⟩ :: acc
+    let st' := if st.start == -1 then { st with start := sstart, stop := sstart } else st
+    (⟨.propertyValue, st'.start, st'.stop, sstart⟩ :: a, st')
+  else if st.start != -1 then (⟨.propertyName, st.start, st.stop, sstart⟩ :: acc, st)
+  else (acc, st)
+def closeBlock (blockEnd : Bool) (sstart : Int) (r : List Ev × ScanState) : List Ev × ScanState :=
+  if blockEnd then (⟨.blockEnd, sstart, sstart + 1, sstart⟩ :: r.1, { r.2 with start := sstart, stop := sstart + 1 }) else r
+/-- block start: the token that becomes the selector (`p1` = position after the brace) -/
+def selectorState (st : ScanState) (p1 : Int) : ScanState :=
+  let st1 := if st.start == -1 && st.propertyStart == -1 then { st with start := p1, stop := p1 } else st
+  if st1.propertyStart != -1 then
+    { st1 with start := st1.propertyStart, stop := if st1.stop == -1 then st1.propertyDelimiter + 1 else st1.stop } else st1
+
+/-- the catch-all branch of the scanner loop at position `p`: `(` or `)` (expression counter), a string literal, or one
+    character; nothing at the end of the input. Returns the rest, the new position and the state with `end` updated. -/
+def eatOne (rest : Str) (p : Int) (st1 : ScanState) : Str × Int × ScanState :=
+  match rest with
+  | [] => ([], p, { st1 with stop := p })
+  | y :: r =>
+    if y == 40 then (r, p + 1, { st1 with expression := st1.expression + 1, stop := p + 1 })
+    else if y == 41 then (r, p + 1, { st1 with expression := st1.expression - 1, stop := p + 1 })
+    else match literal (y :: r) with
+      | some (r', n, over) => (r', p + n + over, { st1 with stop := p + n + over })
+      | none => (r, p + 1, { st1 with stop := p + 1 })
+
+/-- `scan(source, callback)` as an event list (callback never stops it). -/
 def scanLoop : Nat → Str → Int → ScanState → List Ev → List Ev × ScanState × Int
   | 0, _, pos, st, acc => (acc, st, pos)
   | _+1, [], pos, st, acc => (acc, st, pos)
@@ -66,67 +95,32 @@ def scanLoop : Nat → Str → Int → ScanState → List Ev → List Ev × Scan
     else
     let sstart := pos                                        -- scanner.start = scanner.pos
     if x == 125 || (x == 59 && st.expression ≤ 0) then      -- a `;` inside parentheses is not a delimiter
-      let blockEnd := x == 125
-      let p1 := pos + 1
-      -- pending property / token flush
-      let (acc1, st1) : List Ev × ScanState :=
-        if st.propertyStart != -1 then
-          let a := ⟨.propertyName, st.propertyStart, st.propertyEnd, st.propertyDelimiter⟩ :: acc
-          let st' := if st.start == -1 then { st with start := sstart, stop := sstart } else st
-          (⟨.propertyValue, st'.start, st'.stop, sstart⟩ :: a, st')
-        else if st.start != -1 then (⟨.propertyName, st.start, st.stop, sstart⟩ :: acc, st)
-        else (acc, st)
-      let (acc2, st2) : List Ev × ScanState :=
-        if blockEnd then (⟨.blockEnd, sstart, p1, sstart⟩ :: acc1, { st1 with start := sstart, stop := p1 }) else (acc1, st1)
-      scanLoop fuel xs p1 st2.reset acc2
+      let r := closeBlock (x == 125) pos (flushPending st pos acc)
+      scanLoop fuel xs (pos + 1) r.2.reset r.1
     else if x == 123 then
-      let p1 := pos + 1
-      let st1 := if st.start == -1 && st.propertyStart == -1 then { st with start := p1, stop := p1 } else st
-      let st2 := if st1.propertyStart != -1 then
-          { st1 with start := st1.propertyStart, stop := if st1.stop == -1 then st1.propertyDelimiter + 1 else st1.stop } else st1
-      scanLoop fuel xs p1 st2.reset (⟨.selector, st2.start, st2.stop, sstart⟩ :: acc)
+      let st2 := selectorState st (pos + 1)
+      scanLoop fuel xs (pos + 1) st2.reset (⟨.selector, st2.start, st2.stop, pos⟩ :: acc)
     else if x == 58 then
       -- `eat(':') and not is_known_selector_colon`: state.expression or eat_while(':')
       let p1 := pos + 1
       if st.expression != 0 then
-        -- known selector colon: falls to the `else` branch of the if/elif chain? No: the elif condition is false, so the
-        -- final `else` runs with the colon already consumed.
-        let st1 := if st.start == -1 then { st with start := p1 } else st
-        -- in the else-branch: eat('(') / eat(')') / literal / pos += 1 on the NEXT character
-        match xs with
-        | 40 :: r => scanLoop fuel r (p1 + 1) { st1 with expression := st1.expression + 1, stop := p1 + 1 } acc
-        | 41 :: r => scanLoop fuel r (p1 + 1) { st1 with expression := st1.expression - 1, stop := p1 + 1 } acc
-        | y :: r =>
-          match literal (y :: r) with
-          | some (r', n, over) => scanLoop fuel r' (p1 + n + over) { st1 with stop := p1 + n + over } acc
-          | none => scanLoop fuel r (p1 + 1) { st1 with stop := p1 + 1 } acc
-        | [] => scanLoop fuel [] p1 { st1 with stop := p1 } acc                  -- at EOF: nothing more to consume
+        -- known selector colon (inside parentheses): the catch-all branch runs with the colon already consumed
+        let e := eatOne xs p1 (if st.start == -1 then { st with start := p1 } else st)
+        scanLoop fuel e.1 e.2.1 e.2.2 acc
       else
-        let (r, n) := spanColon xs 0
-        if n > 0 then
-          -- `::` pseudo-element: known selector colon, else-branch with colons consumed
-          let p2 := p1 + n
-          let st1 := if st.start == -1 then { st with start := p2 } else st
-          match r with
-          | 40 :: r' => scanLoop fuel r' (p2 + 1) { st1 with expression := st1.expression + 1, stop := p2 + 1 } acc
-          | 41 :: r' => scanLoop fuel r' (p2 + 1) { st1 with expression := st1.expression - 1, stop := p2 + 1 } acc
-          | y :: r' =>
-            match literal (y :: r') with
-            | some (r'', m, over) => scanLoop fuel r'' (p2 + m + over) { st1 with stop := p2 + m + over } acc
-            | none => scanLoop fuel r' (p2 + 1) { st1 with stop := p2 + 1 } acc
-          | [] => scanLoop fuel [] p2 { st1 with stop := p2 } acc
+        let c := spanColon xs 0
+        if c.2 > 0 then
+          -- `::` pseudo-element: known selector colon, catch-all branch with the colons consumed
+          let p2 := p1 + c.2
+          let e := eatOne c.1 p2 (if st.start == -1 then { st with start := p2 } else st)
+          scanLoop fuel e.1 e.2.1 e.2.2 acc
         else
           let st1 := if st.propertyStart == -1 then { st with propertyStart := st.start } else st
           let pe := if st1.stop != -1 then st1.stop else if st1.propertyStart != -1 then st1.propertyDelimiter + 1 else st1.propertyEnd
           scanLoop fuel xs p1 { st1 with propertyEnd := pe, propertyDelimiter := p1 - 1, start := -1, stop := -1 } acc
     else
-      let st1 := if st.start == -1 then { st with start := pos } else st
-      if x == 40 then scanLoop fuel xs (pos + 1) { st1 with expression := st1.expression + 1, stop := pos + 1 } acc
-      else if x == 41 then scanLoop fuel xs (pos + 1) { st1 with expression := st1.expression - 1, stop := pos + 1 } acc
-      else
-        match literal (x :: xs) with
-        | some (r, n, over) => scanLoop fuel r (pos + n + over) { st1 with stop := pos + n + over } acc
-        | none => scanLoop fuel xs (pos + 1) { st1 with stop := pos + 1 } acc
+      let e := eatOne (x :: xs) pos (if st.start == -1 then { st with start := pos } else st)
+      scanLoop fuel e.1 e.2.1 e.2.2 acc
 
 def scan (s : Str) : List Ev :=
   let (acc, st, _) := scanLoop (2 * s.length + 2) s 0 {} []
